@@ -333,7 +333,9 @@ func (s *state) walk(node parse.Node) error {
 		if err != nil {
 			return err
 		}
-		si.blocks = append(s.blocks, node.Blocks, tree.Blocks())
+		// Only the blocks in the embed body override those of the embedded
+		// template; blocks of the embedding template are unrelated to it.
+		si.blocks = append(si.blocks, node.Blocks, tree.Blocks())
 		err = si.walk(tree.Root())
 		if err != nil {
 			return err
